@@ -50,9 +50,11 @@ def _runs(draw):
     ops = []
     nops = draw(st.integers(1, 4))
     for _ in range(nops):
-        kind = draw(st.sampled_from(["integrate", "integrate", "integrate_to", "integrate_to", "set_tf", "set_dt"]))
+        kind = draw(st.sampled_from(["integrate", "integrate", "integrate_to", "integrate_to", "set_tf", "set_dt", "integrate_ulps"]))
         if kind == "integrate_to":
             ops.append([kind, draw(st.sampled_from([-0.5, 0.25, 0.5, 1.0, 1.0, 1.5, 2.0, 0.0]))])   # t0 + frac (tf - t0)
+        elif kind == "integrate_ulps":
+            ops.append([kind, draw(st.sampled_from([1, -1, 2, 3, -2]))])                              # a target a few ulps from the current time
         elif kind == "set_tf":
             ops.append([kind, draw(st.sampled_from([0.5, 1.5, 2.0, -1.0]))])
         elif kind == "set_dt":
@@ -115,14 +117,34 @@ def check(case):
         if kind == "set_dt":
             a.dt = float(a.dt) * op[1]
             continue
-        target = float(a.tf) if kind == "integrate" else float(dt(t0 + op[1] * span))
         cur = float(a.t[-1])
+        if kind == "integrate_ulps":
+            target = dt(cur)
+            for _ in range(abs(op[1])):
+                target = np.nextafter(target, dt(np.inf if op[1] > 0 else -np.inf))
+            target = float(target)
+        else:
+            target = float(a.tf) if kind == "integrate" else float(dt(t0 + op[1] * span))
         n_before = len(a)
         status_before = a.integration_status
         dist = abs(target - cur)
         end_tol = 64 * float(np.finfo(dt).eps) * max(1.0, abs(cur), abs(target))
         if 4 * float(np.finfo(dt).eps) <= dist <= end_tol:
-            continue   # already within the end-time tolerance of the target: the call may or may not record a step
+            # already within the end-time tolerance of the target: the call may or may not record a step - it is made, its
+            # effect on later calls is what is checked
+            dt_before = float(a.dt)
+            err = traj.run_integrate(a, dt(target), step_limit=n_before + 5)
+            if err is None and len(a) == n_before and abs(float(a.dt)) != abs(dt_before):
+                viols.append(V("noop_changed_dt", "{}: integrate({!r}) from {!r} ({} ulps away) recorded no step (the target counts as reached) but changed dt from {!r} to {!r}".format(
+                    method, target, cur, op[1] if kind == "integrate_ulps" else "a few", dt_before, float(a.dt)), fam, **attrs))
+                break
+            if err is not None:
+                viols.append(V("integrate_raised", "{}: integrate({!r}) from {!r} (a few ulps away) raised {!r}".format(method, target, cur, err), fam + exc_sig(err) if not isinstance(err, traj.StepCap) else fam + "cap", **attrs))
+                break
+            labels.append("target_within_ulps")
+            if len(a) > n_before:
+                segments.append((n_before - 1, len(a) - 1, target, 1.0 if target > cur else -1.0))
+            continue
         moving = dist > end_tol
         direction = 1.0 if target > cur else -1.0
         if moving:
@@ -130,7 +152,7 @@ def check(case):
             if dt_now > dist:
                 dt_now = 0.5 * dist
             if fixed_explicit and dt_now > 0:
-                limit = n_before + int(math.ceil(dist / dt_now)) + 2
+                limit = n_before + min(int(math.ceil(dist / dt_now)) + 2, 50000)
             else:
                 limit = n_before + (400 if fam in ("implicit_fixed", "implicit_embedded", "richardson") else COST_CAP)
         else:
